@@ -44,7 +44,7 @@ _WCS = {}
 def make_wcs(ws):
     """The astropy WCS object of a WCS spec (cached per process; never mutated by anybody)."""
     from mc.pool import wcs_simple
-    key = (ws['proj'], ws['rot'], ws['scale'], ws['flip'], ws['frame'], tuple(ws['crval']), ws.get('enc', 'cdelt_pc'))
+    key = (ws['proj'], ws['rot'], ws['scale'], ws['flip'], ws['frame'], tuple(ws['crval']), ws.get('enc', 'cdelt_pc'), bool(ws.get('latfirst')))
     w = _WCS.get(key)
     if w is None:
         fr = FRAMES[ws['frame']]
@@ -52,7 +52,7 @@ def make_wcs(ws):
             warnings.simplefilter('ignore')
             w = wcs_simple(rot_deg=ws['rot'], cdelt=ws['scale'], proj=ws['proj'], ctype=fr['ctype'],
                            crval=tuple(ws['crval']), crpix=CRPIX_FITS, flip=ws['flip'], radesys=fr['radesys'],
-                           equinox=fr.get('equinox'), encoding=ws.get('enc', 'cdelt_pc'))
+                           equinox=fr.get('equinox'), encoding=ws.get('enc', 'cdelt_pc'), lat_first=bool(ws.get('latfirst')))
         if len(_WCS) > 64:
             _WCS.clear()
         _WCS[key] = w
@@ -60,6 +60,8 @@ def make_wcs(ws):
 
 
 def wcs_tag(ws):
+    if ws.get('latfirst'):
+        return wcs_tag({k: v for k, v in ws.items() if k != 'latfirst'}) + '/latfirst'
     if ws.get('enc', 'cdelt_pc') != 'cdelt_pc':
         return wcs_tag({k: v for k, v in ws.items() if k != 'enc'}) + '/' + ws['enc']
     return f"{ws['proj']}/rot{ws['rot']:g}/s{ws['scale']:g}/{'flip' if ws['flip'] else 'std'}/{ws['frame']}/{ws['crval'][0]:g},{ws['crval'][1]:g}"
